@@ -6,7 +6,9 @@ package main
 // Summary.PctRangeString of /repo on generated samples and records inputs,
 // observed outputs, the oracle values of the library calls the model does not
 // compute (go-moremath normal approximations, t quantiles, mathx.Choose above
-// 20) and the results of metamorphic variants (swap, permute, rescale).
+// 20, the p-value of a direct call of the dependency's test on the same values)
+// and the results of metamorphic variants (swap, permute, rescale). The model
+// follows benchmath WITH the repair hooks/fix_c13_cap_p_at_one.diff.
 
 import (
 	"errors"
@@ -453,7 +455,7 @@ func mathxChooseInt(n, k int) int64 {
 	return r.Int64()
 }
 
-// differs: |p - spec| > 1e-9 in exact arithmetic (NaN and infinities differ)
+// differs: |p - spec| > 1e-9 * spec in exact arithmetic (NaN and infinities differ)
 func c13Differs(p float64, spec *big.Rat) bool {
 	if math.IsNaN(p) || math.IsInf(p, 0) {
 		return true
@@ -461,7 +463,66 @@ func c13Differs(p float64, spec *big.Rat) bool {
 	d := new(big.Rat).SetFloat64(p)
 	d.Sub(d, spec)
 	d.Abs(d)
-	return d.Cmp(big.NewRat(1, 1000000000)) > 0
+	return d.Cmp(new(big.Rat).Mul(big.NewRat(1, 1000000000), spec)) > 0
+}
+
+// c13DirectU: the p-value of a direct call of the dependency's U-test (not
+// through benchmath); ok = false when it fails or panics.
+func c13DirectU(x1, x2 []float64) (p float64, ok bool) {
+	defer func() {
+		if e := recover(); e != nil {
+			ok = false
+		}
+	}()
+	a := append([]float64(nil), x1...)
+	b := append([]float64(nil), x2...)
+	sort.Float64s(a)
+	sort.Float64s(b)
+	res, err := stats.MannWhitneyUTest(a, b, stats.LocationDiffers)
+	if err != nil {
+		return 0, false
+	}
+	return res.P, true
+}
+
+// c13DirectWelch: the same for Welch's t-test.
+func c13DirectWelch(x1, x2 []float64) (p float64, ok bool) {
+	defer func() {
+		if e := recover(); e != nil {
+			ok = false
+		}
+	}()
+	a := append([]float64(nil), x1...)
+	b := append([]float64(nil), x2...)
+	sort.Float64s(a)
+	sort.Float64s(b)
+	res, err := stats.TwoSampleWelchTTest(stats.Sample{Xs: a, Sorted: true}, stats.Sample{Xs: b, Sorted: true}, stats.LocationDiffers)
+	if err != nil {
+		return 0, false
+	}
+	return res.P, true
+}
+
+// c13TiedPathDeviates: input predicate of the known finding
+// C13_moremath_tied_exact_path, decided by running the mechanism itself: the
+// pooled values have ties, both sizes are within go-moremath's tied exact limit
+// (25), and the dependency's U-test (called directly, its result capped at 1 as
+// benchmath's repaired Compare does) returns for (x1, x2) or for (x2, x1) a
+// p-value that is not the exact permutation p-value of the samples.
+func c13TiedPathDeviates(x1, x2 []float64) bool {
+	if len(x1) == 0 || len(x2) == 0 || len(x1) > 25 || len(x2) > 25 {
+		return false
+	}
+	spec, ties := c13ExactP(x1, x2)
+	if !ties {
+		return false
+	}
+	for _, pr := range [][2][]float64{{x1, x2}, {x2, x1}} {
+		if p, ok := c13DirectU(pr[0], pr[1]); ok && c13Differs(math.Min(p, 1), spec) {
+			return true
+		}
+	}
+	return false
 }
 
 // ---------- comparison cases ----------
@@ -554,7 +615,6 @@ func c13CompareCase(o *hx.Out, r *hx.Rng, ai int, x1, x2 []float64, alpha float6
 	}
 	// metamorphic variants on the implementation
 	var variants []hx.Sx
-	var ps = []float64{c.P}
 	addVar := func(kind int, y1, y2 []float64, valid bool) {
 		if ai == 2 && len(tags) == 0 && c13WelchOverflows(y1, y2) {
 			// the rescaled input falls into the overflow finding's domain although the
@@ -565,9 +625,6 @@ func c13CompareCase(o *hx.Out, r *hx.Rng, ai int, x1, x2 []float64, alpha float6
 		if v.panicked {
 			variants = append(variants, hx.L(hx.I(kind), hx.F64(math.NaN()), hx.I(-1), hx.I(-1), hx.Bool(valid)))
 			return
-		}
-		if valid {
-			ps = append(ps, v.c.P)
 		}
 		variants = append(variants, hx.L(hx.I(kind), hx.F64(v.c.P), hx.I(v.c.N1), hx.I(v.c.N2), hx.Bool(valid)))
 	}
@@ -585,19 +642,29 @@ func c13CompareCase(o *hx.Out, r *hx.Rng, ai int, x1, x2 []float64, alpha float6
 	if ai == 0 && len(x1) > 0 && len(x2) > 0 && len(x1) <= 25 && len(x2) <= 25 {
 		spec, ties := c13ExactP(x1, x2)
 		tied, exact = ties, true
-		if ties {
-			for _, p := range ps {
-				if c13Differs(p, spec) || p > 1 {
-					tags = append(tags, c13Tag)
-					break
-				}
+		if c13TiedPathDeviates(x1, x2) {
+			tags = append(tags, c13Tag)
+		}
+		in.Observed = fmt.Sprintf("p=%v exact-permutation-p=%s ", c.P, spec.FloatString(17))
+	}
+	// oracle: the float the dependency's test returns on these values (direct call)
+	var raw hx.Sx = hx.L()
+	switch ai {
+	case 0:
+		if p, ok := c13DirectU(x1, x2); ok {
+			raw = hx.L(hx.F64(p))
+			if p > 1 {
+				o.Count("utest raw p > 1")
 			}
 		}
-		in.Observed = fmt.Sprintf("p=%v exact-permutation-p=%s ", c.P, spec.FloatString(12))
+	case 2:
+		if p, ok := c13DirectWelch(x1, x2); ok {
+			raw = hx.L(hx.F64(p))
+		}
 	}
 	cs := hx.L(hx.I(2), hx.I(ai), c13FL(x1), c13FL(x2), hx.F64(alpha),
 		hx.L(hx.I(0), hx.F64(c.P), hx.I(c.N1), hx.I(c.N2), hx.F64(c.Alpha), c13Warns(c.Warnings, alpha, 0), hx.S(c.String())),
-		hx.List(deltas), hx.List(variants))
+		hx.List(deltas), hx.List(variants), raw)
 	in.Observed += fmt.Sprintf("P=%v N1=%d N2=%d Alpha=%v warnings=%v string=%q delta=%q", c.P, c.N1, c.N2, c.Alpha, c.Warnings, c.String(), c.FormatDelta(pairs[0].old, pairs[0].new))
 	o.Count("compare " + c13AssumptionNames[ai])
 	if ai == 0 {
@@ -709,7 +776,7 @@ func c13DeltaClass(s string) string {
 // ---------- driver ----------
 
 func genC13(o *hx.Out, r *hx.Rng, tier string, replay string) error {
-	o.Rule = "samples of 1-70 finite values in 7 styles (untied, heavily tied, mixed sign with zeros, constant, wide magnitudes 2^-300..2^300, few ties, near-constant) x confidences {0.5,0.9,0.95,0.99,0.999, random, just below 1-2^(1-n)} x alphas {0,0.01,0.05,0.5,1, random, the U-test minimum-p table values} x {nothing, exact, normal}; every comparison re-evaluated on swapped, shuffled, 2^k-scaled and 10x-scaled samples; direct FormatDelta / PctRangeString / String calls over arbitrary float64 incl. NaN, infinities, -0, subnormals and decimal rounding ties; exhaustive small tied pairs. non-trivial = samples with >= 2 values; distinct by input"
+	o.Rule = "samples of 1-70 finite values in 7 styles (untied, heavily tied, mixed sign with zeros, constant, wide magnitudes 2^-300..2^300, few ties, near-constant) x confidences {0.5,0.9,0.95,0.99,0.999, random, just below 1-2^(1-n)} x alphas {0,0.01,0.05,0.5,1, random, the U-test minimum-p table values} x {nothing, exact, normal}; every comparison re-evaluated on swapped, shuffled, 2^k-scaled and 10x-scaled samples; direct FormatDelta / PctRangeString / String calls over arbitrary float64 incl. NaN, infinities, -0, subnormals and decimal rounding ties; exhaustive small tied pairs; every untied split of 1..N (N <= 6 quick, 9 thorough), balanced untied splits (exact p at or just below 1), well separated untied samples of 12-25 values (exact p down to 1.6e-14). non-trivial = samples with >= 2 values; distinct by input"
 	nS, nC, nD := 900, 1500, 900
 	if tier == "thorough" {
 		nS, nC, nD = 12000, 20000, 12000
@@ -743,6 +810,73 @@ func genC13(o *hx.Out, r *hx.Rng, tier string, replay string) error {
 		}
 	}
 	o.Extra["exhaustive_pairs_over_3_values_up_to_n"] = maxN
+	// untied samples whose exact p is 1 or close to it: go-moremath's untied exact
+	// path doubles a float sum without a cap and returns 1 + 2^-52 for some of them
+	// ({2,3,5} vs {1,4,6}); every split of 1..N into two non-empty samples
+	c13CompareCase(o, r, 0, []float64{2, 3, 5}, []float64{1, 4, 6}, 1)
+	c13CompareCase(o, r, 0, []float64{1, 4, 5}, []float64{2, 3, 6}, 0.05)
+	maxSplit := 6
+	if tier == "thorough" {
+		maxSplit = 9
+	}
+	for N := 2; N <= maxSplit; N++ {
+		for mask := 1; mask < 1<<N-1; mask++ {
+			var a, b []float64
+			for i := 0; i < N; i++ {
+				if mask>>i&1 == 1 {
+					a = append(a, float64(i+1))
+				} else {
+					b = append(b, float64(i+1))
+				}
+			}
+			c13CompareCase(o, r, 0, a, b, []float64{1, 0.05, 0.5}[r.Intn(3)])
+		}
+	}
+	o.Extra["exhaustive_untied_splits_of_1..N_up_to_N"] = maxSplit
+	// balanced untied splits of larger pools (U1 and U2 one apart: exact p just below or at 1)
+	nBal := 40
+	if tier == "thorough" {
+		nBal = 400
+	}
+	for i := 0; i < nBal; i++ {
+		n1, n2 := r.Range(3, 12), r.Range(3, 12)
+		pool := c13Shuffle(r, c13Values(r, n1+n2, 0, 0))
+		sort.Float64s(pool)
+		// alternate, then swap a few neighbours: U stays near n1*n2/2
+		var a, b []float64
+		for j, v := range pool {
+			if (j%2 == 0 && len(a) < n1) || len(b) >= n2 {
+				a = append(a, v)
+			} else {
+				b = append(b, v)
+			}
+		}
+		for k := r.Intn(3); k > 0; k-- {
+			ia, ib := r.Intn(len(a)), r.Intn(len(b))
+			a[ia], b[ib] = b[ib], a[ia]
+		}
+		c13CompareCase(o, r, 0, a, b, c13Alpha(r))
+	}
+	// well separated untied samples of 12..25 values each: exact p down to 2/C(50,25) = 1.6e-14
+	nSep := 12
+	if tier == "thorough" {
+		nSep = 100
+	}
+	for i := 0; i < nSep; i++ {
+		n1, n2 := r.Range(12, 25), r.Range(12, 25)
+		e := r.Range(-300, 300)
+		x1 := c13Values(r, n1, 0, 0)
+		x2 := c13Values(r, n2, 0, 0)
+		off := 2000.0
+		if r.Chance(0.3) {
+			off = 60 // overlapping a little
+		}
+		for j := range x2 {
+			x2[j] += off
+		}
+		sc := math.Ldexp(1, e)
+		c13CompareCase(o, r, 0, c13Scale(x1, sc), c13Scale(x2, sc), c13Alpha(r))
+	}
 	for i := 0; i < nS; i++ {
 		ai := r.Intn(3)
 		n := c13Size(r)
@@ -800,6 +934,9 @@ func genC13(o *hx.Out, r *hx.Rng, tier string, replay string) error {
 		[]float64{-6.418567847939022e+78, 1.153234906434618e+79, 4.2199994183924477e+77}, 0.05)
 	c13CompareCase(o, r, 2, []float64{math.Ldexp(1, -220), math.Ldexp(2, -220), math.Ldexp(3, -220)},
 		[]float64{math.Ldexp(1, 260), math.Ldexp(2, 260), math.Ldexp(4, 260)}, 0.05)
+	// the variance of the second sample overflows to +Inf: t = 0, no panic, P = 1 for clearly different samples
+	c13CompareCase(o, r, 2, []float64{1.0830157094123588e+152, 1.2243957732193596e+152},
+		[]float64{1.7689646180779952e+155, 1.6979856734457484e+155, 1.2176571555774998e+155}, 0.05)
 	for i := 0; i < nO; i++ {
 		var e1, e2 int
 		switch r.Intn(5) {
